@@ -169,6 +169,15 @@ CLAIMS = {
    note="Trusted: TLC, Fix.tla, math.sin/cos/sqrt witnesses (norms / squares verified).",
    technique="TLA+ rotation relations over verified unit-vector witnesses; trace validation",
    ref="5/C06"),
+ "C08": dict(
+   text="Trace_SunEarth.tla states the reflection law (longitude + 180, latitude negated, same distance), the frame-consistency "
+        "law (each frame's rectangular direction = the of-date direction carried there by the library's own precession, norms = "
+        "radius vector), the IAU obliquity cubic evaluated in the spec, true = mean + nutation, the 18.6-year main-term bounds on "
+        "the Moon's node and the coarse-vs-VSOP87 bounds; TLC validates recorded epochs in exact fixed point on verified witnesses.",
+   note="Trusted: TLC, Fix.tla, math.sin/cos/atan2/asin in the ~10-line wiring that hands a rectangular vector to the library's "
+        "precession and back (witness norms verified).",
+   technique="TLA+ linear/rotation relations over verified witnesses; IAU polynomial in the spec; trace validation",
+   ref="5/C08"),
 }
 
 PENDING_REASON = "check not built yet in this round (specification module planned in DESIGN.md section 5); not claimed until its trace specification validates the unchanged tree"
